@@ -10,7 +10,7 @@ RULE = ("Engine S histories with many waiting requests of mixed priorities on bo
         "the very instant'): after every call on time-less stores and at the end of every simulated instant on all "
         "stores, no space request is pending while capacity - held - granted-unused-put > 0, and no retrieval request "
         "is pending while available - granted-unused-get > 0 (filter store: obligation on the head request only, when "
-        "#items matching its filter > #granted unused retrievals; belts, put side: only when the belt is empty). "
+        "#items matching its filter > #granted unused retrievals; belts, put side: only when the belt is empty and no admission is outstanding). "
         "Non-trivial: at least one token was granted by a re-trigger (after a put/get/cancel/timer), not inside its "
         "own reserve call.")
 ASSUMPTIONS = ["'at that instant' is judged when all kernel events of the timestamp are processed (DESIGN R2)",
@@ -47,8 +47,10 @@ class WakeupOracle(Oracle):
         if pend_p:
             gp = len(h.granted("p"))
             obliged = True
-            if S.is_belt and held > 0:
-                obliged = False     # admission on a loaded belt depends on spacing / stall: C12, C13
+            if S.is_belt and (held > 0 or gp > 0):
+                # admission on a loaded belt depends on spacing / stall (C12, C13); an admission that is
+                # granted but not used yet occupies the entrance (items enter one at a time)
+                obliged = False
             if obliged and cap - held - gp > 0:
                 self.res.violate((S.cls, "put", h.last_trigger),
                                  "space request pending although capacity=%d held=%d granted_unused_put=%d (%s, t=%s, op#%d)" % (
